@@ -102,6 +102,12 @@ def build():
     C = ContractSet("C14", "Serial links: framing, integrity and command flow control")
     C.strings = True
     C.finite_checks.append(crc_table_check)
+    C.finite_checks.append(common.native_demo_check(
+        'c14_unrelated_frame_cancels_retry.py',
+        'a lost response is retried as configured also when an unrelated frame (a switch report) arrives during the timeout'))
+    C.finite_checks.append(common.native_demo_check(
+        'c14_exhausted_retries_wedge_channel.py',
+        'after the last retry of a lost response later confirmed commands are still written to the port'))
     C.finite_checks.append(write_site_check)
 
     # ------------------------------------------------------------------ OPP CRC
